@@ -476,3 +476,531 @@ func Differ(a, b Obs) []Problem {
 func ClassCode(cfg *Config, e Expect) string {
 	return fmt.Sprintf("%s/%s/%s/n=%d/allowed=%d/sel=%d/pol=%d/def=%d", e.Class, e.Reason, e.Rel, len(cfg.Hosts), popcount(e.Allowed), len(cfg.Selectors), cfg.Policy, len(cfg.Default))
 }
+
+// ---------------------------------------------------------------- wide scope
+//
+// Selectors of EVERY size 1..8 (slice capacity growth patterns of the builders:
+// append reallocates at 1,2,3(->4),5(->8), shares at 4,6,7,8), several
+// selectors per configuration with overlapping prefixes/suffixes, hosts that
+// share all keys and differ in the values of 1-2 chosen selector keys (first,
+// middle, last in sorted order), and criteria for key subsets that are / are
+// not a configured selector. Everything is a complete product within the
+// bound; nothing is sampled.
+
+// WideKeys is the key universe of the wide scope, in byte order (the order
+// sort.Strings / the api contract use). The names are order traps: upper case
+// sorts before lower case, "a" is a prefix of "a.b" and "ab", '.' sorts before
+// letters, "k10" sorts before "k2" (not numerically).
+var WideKeys = []string{"A", "a", "a.b", "ab", "k10", "k2", "k9", "z"}
+
+// WideFixed is the value every host carries for a key that is not varied;
+// WideValues are the values of a varied key ("x" collides with the fixed value
+// of the other keys: equal values under different keys); UnknownValue is
+// carried by no host.
+const (
+	WideFixed    = "x"
+	UnknownValue = "9"
+)
+
+var WideValues = []string{"1", "x", "2"}
+
+// WideSpec tells how the probes of a configuration are derived from it (it is
+// part of the replayable case).
+type WideSpec struct {
+	P          []string `json:"p"`            // primary selector (sorted); nil: hand-written configuration, every subset of its keys + "zz" is probed
+	AllKeySets bool     `json:"all_key_sets"` // probe every subset of P + one more host key + "zz" (otherwise trimmed for large P, see wideKeySets)
+	Name       string   `json:"name,omitempty"`
+}
+
+// WideBound is the bound of the wide enumeration.
+type WideBound struct {
+	Sizes      []int    // selector sizes
+	Bases      []string // "prefix": P = first n WideKeys; "suffix": P = last n WideKeys
+	Spellings  []string // how P is written in the configuration: "sorted" | "reversed" | "rotated" | "dup"
+	SingleVals int      // number of values when one key is varied
+	PairVals   int      // number of values of each key when two keys are varied
+	Extras     []bool   // with / without the extra hosts (lacking last key, lacking first key, no metadata, duplicate of host 0)
+	AllFB      bool     // all 8 fallback alternatives (otherwise 5)
+	AllKeySets bool
+	DupList    bool // also the selector list [P, P spelled reversed]
+}
+
+func (b WideBound) String() string {
+	return fmt.Sprintf("keys %v (byte order); primary selector P of every size %v taken as %v of the keys, spelled %v; selector lists per P: [P], [P,P-last], [P-last,P], [P,P-first], [P,{last}], [P,{first}], [all prefixes of P], [P,P-middle], [P,P+one more key]%s; hosts carry all 8 keys with value %q except 1 or 2 varied keys of P (every choice among first/middle/last position): one varied key takes %d values, two varied keys %d values each of %v, complete product; extra hosts (lacking P's last key, lacking P's first key, without metadata, duplicate of host 0) %v; fallback: %d alternatives (none, any-endpoint, default-subset {varied key:1} / {all of P, varied keys=x}%s, any-endpoint with configured default%s); criteria: %s, each key taking every value some host has for it, plus first / last criterion replaced by the unknown value %q, plus one reversed (unsorted) order per key set, plus context-without-criteria and nil-context",
+		WideKeys, b.Sizes, b.Bases, b.Spellings, map[bool]string{true: ", [P,P reversed]", false: ""}[b.DupList], WideFixed, b.SingleVals, b.PairVals, WideValues, b.Extras,
+		map[bool]int{true: 8, false: 5}[b.AllFB], map[bool]string{true: " / {} / {zz:9}", false: ""}[b.AllFB], map[bool]string{true: ", none with configured default", false: ""}[b.AllFB],
+		map[bool]string{true: "every subset of P + one more host key + unknown key zz, and P+{0}, P+{b}", false: "every subset of P + one more host key + unknown key zz when that is <=6 keys, otherwise all prefixes and suffixes of it and of P, all single keys, P minus each key, every pair of first/middle/last, every configured selector, and P+{0}, P+{b}, P+{zz}"}[b.AllKeySets], UnknownValue)
+}
+
+func spell(P []string, how string) []string {
+	n := len(P)
+	out := make([]string, 0, n+1)
+	switch how {
+	case "reversed":
+		for i := n - 1; i >= 0; i-- {
+			out = append(out, P[i])
+		}
+	case "rotated":
+		r := (n + 1) / 2
+		out = append(out, P[r:]...)
+		out = append(out, P[:r]...)
+	case "dup":
+		out = append(out, P...)
+		out = append(out, P[0])
+	default:
+		out = append(out, P...)
+	}
+	return out
+}
+
+func cp(s []string) []string { return append([]string{}, s...) }
+
+func without(P []string, i int) []string {
+	out := []string{}
+	for j, k := range P {
+		if j != i {
+			out = append(out, k)
+		}
+	}
+	return out
+}
+
+func firstNotIn(P []string) (string, bool) {
+	for _, k := range WideKeys {
+		if !inKeys(k, P) {
+			return k, true
+		}
+	}
+	return "", false
+}
+
+func wideSelectorLists(P []string, how string, dup bool) [][][]string {
+	n := len(P)
+	sp := spell(P, how)
+	var out [][][]string
+	seen := map[string]bool{}
+	add := func(l ...[]string) {
+		k := fmt.Sprintf("%q", l)
+		if !seen[k] {
+			seen[k] = true
+			out = append(out, l)
+		}
+	}
+	add(sp)
+	if n >= 2 {
+		add(sp, cp(P[:n-1]))
+		add(cp(P[:n-1]), sp)
+		add(sp, cp(P[1:]))
+		add(sp, cp(P[n-1:]))
+		add(sp, cp(P[:1]))
+	}
+	if n >= 3 {
+		var all [][]string
+		for i := 1; i < n; i++ {
+			all = append(all, cp(P[:i]))
+		}
+		add(append(all, sp)...)
+		add(sp, without(P, n/2))
+	}
+	if k, ok := firstNotIn(P); ok {
+		big := append(cp(P), k)
+		sort.Strings(big)
+		add(sp, big)
+	}
+	if dup && n >= 2 {
+		add(sp, spell(P, "reversed"))
+	}
+	return out
+}
+
+func wideHosts(P []string, V []int, nvals int, extras bool) [][]Pair {
+	mk := func(set map[string]string, drop string, nometa bool) []Pair {
+		h := []Pair{}
+		if nometa {
+			return h
+		}
+		for _, k := range WideKeys {
+			if k == drop {
+				continue
+			}
+			v := WideFixed
+			if s, ok := set[k]; ok {
+				v = s
+			}
+			h = append(h, Pair{k, v})
+		}
+		return h
+	}
+	var hosts [][]Pair
+	idx := make([]int, len(V))
+	for {
+		set := map[string]string{}
+		for i, pos := range V {
+			set[P[pos]] = WideValues[idx[i]]
+		}
+		hosts = append(hosts, mk(set, "", false))
+		i := len(V) - 1
+		for ; i >= 0; i-- {
+			idx[i]++
+			if idx[i] < nvals {
+				break
+			}
+			idx[i] = 0
+		}
+		if i < 0 {
+			break
+		}
+	}
+	if extras {
+		first := map[string]string{}
+		for _, pos := range V {
+			first[P[pos]] = WideValues[0]
+		}
+		hosts = append(hosts, mk(first, P[len(P)-1], false), mk(first, P[0], false), mk(nil, "", true), mk(first, "", false))
+	}
+	return hosts
+}
+
+func wideFallbacks(P []string, V []int, all bool) []FallbackAlt {
+	vk := P[V[0]]
+	full := []Pair{}
+	for i, k := range P {
+		v := WideFixed
+		for _, pos := range V {
+			if pos == i {
+				v = WideValues[1]
+			}
+		}
+		full = append(full, Pair{k, v})
+	}
+	out := []FallbackAlt{{FallbackNone, nil}, {FallbackAny, nil}, {FallbackDefault, []Pair{{vk, WideValues[0]}}}, {FallbackDefault, full}, {FallbackAny, []Pair{{vk, WideValues[0]}}}}
+	if all {
+		out = append(out, FallbackAlt{FallbackDefault, []Pair{}}, FallbackAlt{FallbackDefault, []Pair{{"zz", UnknownValue}}}, FallbackAlt{FallbackNone, []Pair{{vk, WideValues[0]}}})
+	}
+	return out
+}
+
+// WideConfigs yields every configuration of the wide bound with the spec that
+// derives its probes.
+func WideConfigs(b WideBound, yield func(Config, WideSpec) bool) bool {
+	for _, n := range b.Sizes {
+		for _, base := range b.Bases {
+			var P []string
+			switch base {
+			case "prefix":
+				P = cp(WideKeys[:n])
+			case "suffix":
+				if n == len(WideKeys) {
+					continue // same as prefix
+				}
+				P = cp(WideKeys[len(WideKeys)-n:])
+			}
+			pos := []int{0}
+			if n/2 != 0 {
+				pos = append(pos, n/2)
+			}
+			if n-1 != 0 && n-1 != n/2 {
+				pos = append(pos, n-1)
+			}
+			var Vs [][]int
+			for _, p := range pos {
+				Vs = append(Vs, []int{p})
+			}
+			for i := 0; i < len(pos); i++ {
+				for j := i + 1; j < len(pos); j++ {
+					Vs = append(Vs, []int{pos[i], pos[j]})
+				}
+			}
+			seenSpell := map[string]bool{}
+			for _, how := range b.Spellings {
+				if k := fmt.Sprintf("%q", spell(P, how)); seenSpell[k] {
+					continue // n=1: every spelling but dup is the same
+				} else {
+					seenSpell[k] = true
+				}
+				for _, sels := range wideSelectorLists(P, how, b.DupList) {
+					for _, V := range Vs {
+						nv := b.SingleVals
+						if len(V) == 2 {
+							nv = b.PairVals
+						}
+						for _, ex := range b.Extras {
+							hosts := wideHosts(P, V, nv, ex)
+							for _, fb := range wideFallbacks(P, V, b.AllFB) {
+								if !yield(Config{Hosts: hosts, Selectors: sels, Policy: fb.Policy, Default: fb.Default}, WideSpec{P: P, AllKeySets: b.AllKeySets}) {
+									return false
+								}
+							}
+						}
+					}
+				}
+			}
+		}
+	}
+	return true
+}
+
+// Shortcut is one hand-written configuration aimed at one implementation
+// shortcut visible in the builders / the balancer.
+type Shortcut struct {
+	Name      string
+	Hosts     [][]Pair
+	Selectors [][]string
+	Defaults  [][]Pair // default subsets to try (policy default-subset, and configured-but-ignored under any-endpoint)
+}
+
+func ps(kv ...string) []Pair {
+	out := []Pair{}
+	for i := 0; i+1 < len(kv); i += 2 {
+		out = append(out, Pair{kv[i], kv[i+1]})
+	}
+	return out
+}
+
+// Shortcuts lists one input per shortcut seen in the code.
+func Shortcuts() []Shortcut {
+	return []Shortcut{
+		{Name: "value containing the trie path separators '->' and ':' (LoadBalancers() joins key:value->key:value)",
+			Hosts:     [][]Pair{ps("A", "x->a:1"), ps("A", "x", "a", "1"), ps("A", "x", "a", "2"), ps("A", "x->a", "a", "1")},
+			Selectors: [][]string{{"A"}, {"A", "a"}}, Defaults: [][]Pair{ps("A", "x->a:1"), ps("A", "x", "a", "1")}},
+		{Name: "key containing ':' next to a value starting with ':'",
+			Hosts:     [][]Pair{ps("a:", "x"), ps("a", ":x"), ps("a", "x", "a:", "x"), ps("a", ":x", "a:", "x")},
+			Selectors: [][]string{{"a:"}, {"a"}, {"a", "a:"}}, Defaults: [][]Pair{ps("a", ":x")}},
+		{Name: "empty-string metadata value (present key, empty value) vs absent key",
+			Hosts:     [][]Pair{ps("a", ""), ps("a", "", "ab", ""), ps("a", "1", "ab", ""), ps("ab", "1"), {}},
+			Selectors: [][]string{{"a"}, {"a", "ab"}}, Defaults: [][]Pair{ps("a", ""), ps("ab", "")}},
+		{Name: "values equal to key names, key/value swapped, same value under different keys (index is per key)",
+			Hosts:     [][]Pair{ps("a", "ab", "ab", "a"), ps("a", "a", "ab", "ab"), ps("a", "ab"), ps("ab", "ab"), ps("a", "a", "ab", "a")},
+			Selectors: [][]string{{"a"}, {"ab"}, {"ab", "a"}}, Defaults: [][]Pair{ps("a", "ab"), ps("ab", "a", "a", "ab")}},
+		{Name: "selector key that no host carries (empty index column) and default subset on a key outside every selector",
+			Hosts:     [][]Pair{ps("a", "1"), ps("a", "2"), ps("a", "1", "z", "1")},
+			Selectors: [][]string{{"a", "k2"}, {"a"}, {"k2"}}, Defaults: [][]Pair{ps("k2", "1"), ps("z", "1"), ps("z", "1", "a", "1")}},
+		{Name: "duplicate keys inside a long selector and two selectors equal after sort/dedup (4 distinct keys out of 9 written)",
+			Hosts: [][]Pair{ps("A", "1", "a", "x", "ab", "x", "k2", "1"), ps("A", "2", "a", "x", "ab", "x", "k2", "1"), ps("A", "1", "a", "x", "ab", "x", "k2", "2"),
+				ps("A", "2", "a", "x", "ab", "x", "k2", "2"), ps("A", "1", "a", "x", "ab", "x")},
+			Selectors: [][]string{{"k2", "a", "A", "a", "ab", "A", "k2", "ab", "a"}, {"ab", "a", "A", "k2"}, {"A", "a", "ab"}}, Defaults: [][]Pair{ps("k2", "2", "A", "1", "ab", "x", "a", "x")}},
+		{Name: "default subset of 4, 6, 7 pairs written in non-sorted order (capacity growth of the default-subset slice)",
+			Hosts: [][]Pair{ps("A", "1", "a", "x", "a.b", "x", "ab", "x", "k10", "x", "k2", "x", "k9", "1"), ps("A", "1", "a", "x", "a.b", "x", "ab", "x", "k10", "x", "k2", "x", "k9", "2"),
+				ps("A", "2", "a", "x", "a.b", "x", "ab", "x", "k10", "x", "k2", "x", "k9", "1"), ps("A", "2", "a", "x", "a.b", "x", "ab", "x", "k10", "x", "k2", "x", "k9", "2")},
+			Selectors: [][]string{{"A", "k9"}},
+			Defaults: [][]Pair{ps("k9", "2", "ab", "x", "a", "x", "A", "1"), ps("k9", "1", "k2", "x", "ab", "x", "a.b", "x", "a", "x", "A", "2"),
+				ps("k9", "2", "k2", "x", "k10", "x", "ab", "x", "a.b", "x", "a", "x", "A", "2")}},
+		{Name: "host index sets with equal min, max and size under different key/value pairs (host-slice cache of the pre-index builder) on 6 hosts",
+			Hosts:     [][]Pair{ps("a", "1", "ab", "1"), ps("a", "1", "ab", "2"), ps("a", "2", "ab", "1"), ps("a", "2", "ab", "2"), ps("a", "1", "ab", "2"), ps("a", "1", "ab", "1")},
+			Selectors: [][]string{{"a"}, {"ab"}, {"a", "ab"}}, Defaults: [][]Pair{ps("ab", "2")}},
+		{Name: "empty selector entry [] next to a real one",
+			Hosts:     [][]Pair{ps("a", "1"), ps("a", "2"), {}},
+			Selectors: [][]string{{}, {"a"}}, Defaults: [][]Pair{ps("a", "1")}},
+	}
+}
+
+// ShortcutConfigs yields every shortcut under every fallback alternative.
+func ShortcutConfigs(yield func(Config, WideSpec) bool) bool {
+	for _, s := range Shortcuts() {
+		fbs := []FallbackAlt{{FallbackNone, nil}, {FallbackAny, nil}, {FallbackDefault, []Pair{}}, {FallbackDefault, ps("zz", UnknownValue)}}
+		for _, d := range s.Defaults {
+			fbs = append(fbs, FallbackAlt{FallbackDefault, d}, FallbackAlt{FallbackAny, d}, FallbackAlt{FallbackNone, d})
+		}
+		for _, fb := range fbs {
+			if !yield(Config{Hosts: s.Hosts, Selectors: s.Selectors, Policy: fb.Policy, Default: fb.Default}, WideSpec{Name: s.Name, AllKeySets: true}) {
+				return false
+			}
+		}
+	}
+	return true
+}
+
+func allSubsets(u []string) [][]string {
+	out := [][]string{{}}
+	for m := 1; m < 1<<uint(len(u)); m++ {
+		s := []string{}
+		for i := range u {
+			if m&(1<<uint(i)) != 0 {
+				s = append(s, u[i])
+			}
+		}
+		out = append(out, s)
+	}
+	return out
+}
+
+// WideKeySets returns the criteria key sets probed for a configuration (each
+// sorted in byte order, no duplicates, the empty set first).
+func WideKeySets(cfg *Config, spec WideSpec) [][]string {
+	var out [][]string
+	seen := map[string]bool{}
+	add := func(s []string) {
+		s = cp(s)
+		sort.Strings(s)
+		d := s[:0]
+		for i, k := range s {
+			if i == 0 || k != s[i-1] {
+				d = append(d, k)
+			}
+		}
+		k := fmt.Sprintf("%q", d)
+		if !seen[k] {
+			seen[k] = true
+			out = append(out, d)
+		}
+	}
+	if spec.P == nil {
+		km := map[string]bool{"zz": true}
+		for _, s := range cfg.Selectors {
+			for _, k := range s {
+				km[k] = true
+			}
+		}
+		for _, h := range cfg.Hosts {
+			for _, p := range h {
+				km[p.K] = true
+			}
+		}
+		for _, p := range cfg.Default {
+			km[p.K] = true
+		}
+		var u []string
+		for k := range km {
+			u = append(u, k)
+		}
+		sort.Strings(u)
+		for _, s := range allSubsets(u) {
+			add(s)
+		}
+		return out
+	}
+	P := spec.P
+	pu := cp(P)
+	if k, ok := firstNotIn(P); ok {
+		pu = append(pu, k)
+	}
+	pu = append(pu, "zz")
+	sort.Strings(pu)
+	add(nil)
+	if spec.AllKeySets || len(pu) <= 6 {
+		for _, s := range allSubsets(pu) {
+			add(s)
+		}
+	} else {
+		for _, u := range [][]string{pu, P} {
+			for i := 1; i <= len(u); i++ {
+				add(u[:i])
+				add(u[len(u)-i:])
+			}
+		}
+		for _, k := range pu {
+			add([]string{k})
+		}
+		for i := range P {
+			add(without(P, i))
+		}
+		n := len(P)
+		add([]string{P[0], P[n/2]})
+		add([]string{P[0], P[n-1]})
+		add([]string{P[n/2], P[n-1]})
+		add(append(cp(P), "zz"))
+	}
+	for _, s := range cfg.Selectors {
+		add(s)
+	}
+	add(append(cp(P), "0"))
+	add(append(cp(P), "b"))
+	return out
+}
+
+// WideProbes derives the criteria probes of a configuration: for every key set
+// (or only for *onlyKeys: replay) every assignment of host-carried values,
+// plus the first / last criterion replaced by the unknown value, plus one
+// reversed order (unsorted: compared between the builders only).
+func WideProbes(cfg *Config, spec WideSpec, onlyKeys *[]string) []Probe {
+	hostvals := map[string][]string{}
+	for _, h := range cfg.Hosts {
+		for _, p := range h {
+			dup := false
+			for _, v := range hostvals[p.K] {
+				if v == p.V {
+					dup = true
+				}
+			}
+			if !dup {
+				hostvals[p.K] = append(hostvals[p.K], p.V)
+			}
+		}
+	}
+	for k := range hostvals {
+		sort.Strings(hostvals[k])
+	}
+	vals := func(k string) []string {
+		if v := hostvals[k]; len(v) > 0 {
+			return v
+		}
+		return []string{UnknownValue}
+	}
+	var keySets [][]string
+	if onlyKeys != nil {
+		keySets = [][]string{*onlyKeys}
+	} else {
+		keySets = WideKeySets(cfg, spec)
+	}
+	var out []Probe
+	for _, K := range keySets {
+		if len(K) == 0 {
+			out = append(out, Probe{Kind: "criteria", Crit: []Pair{}})
+			continue
+		}
+		seen := map[string]bool{}
+		emit := func(c []Pair) {
+			k := fmt.Sprintf("%q", c)
+			if !seen[k] {
+				seen[k] = true
+				out = append(out, Probe{Kind: "criteria", Crit: append([]Pair{}, c...)})
+			}
+		}
+		idx := make([]int, len(K))
+		first := true
+		for {
+			a := make([]Pair, len(K))
+			for i, k := range K {
+				a[i] = Pair{k, vals(k)[idx[i]]}
+			}
+			emit(a)
+			for _, j := range []int{0, len(K) - 1} {
+				if a[j].V != UnknownValue {
+					b := append([]Pair{}, a...)
+					b[j].V = UnknownValue
+					emit(b)
+				}
+			}
+			if first && len(K) >= 2 {
+				r := make([]Pair, len(K))
+				for i := range a {
+					r[len(K)-1-i] = a[i]
+				}
+				emit(r)
+			}
+			first = false
+			i := len(K) - 1
+			for ; i >= 0; i-- {
+				idx[i]++
+				if idx[i] < len(vals(K[i])) {
+					break
+				}
+				idx[i] = 0
+			}
+			if i < 0 {
+				break
+			}
+		}
+	}
+	return out
+}
+
+// CritKeys returns the sorted key set of a criteria list.
+func CritKeys(crit []Pair) []string {
+	out := []string{}
+	for _, c := range crit {
+		out = append(out, c.K)
+	}
+	sort.Strings(out)
+	return out
+}
